@@ -159,6 +159,13 @@ MUTANTS = [
                     data_type)""",
      """                self.obj_name_to_namespace.setdefault(data_type.name, fmt_class_prefix(
                     data_type))"""),
+    ('c12-whitelist-inherited-field-context', 'C12', 'stone/frontend/ir_generator.py',
+     """            for field in data_type.fields:
+                self._find_dependencies_recursive(field, seen, output_types, output_routes,
+                                                  type_context=data_type)""",
+     """            for field in data_type.all_fields:
+                self._find_dependencies_recursive(field, seen, output_types, output_routes,
+                                                  type_context=data_type)"""),
     # ---- C06 ------------------------------------------------------------------------
     ('c06-struct-no-dict-check', 'C06', 'stone/backends/python_rsrc/stone_serializers.py',
      """        elif not isinstance(obj, dict):
